@@ -1,5 +1,6 @@
 //! C05: forward-mode automatic differentiation with Trace.
 //!   (5 1 ty seed body outputs)     the language is documented in coq/theories/Run/RunC05.v
+//!   (5 2 seed body outputs)        float oracle (f64, checked on the Rust side, flags only)
 //! The program language is the one of C04.  Every program is executed six times: all operators
 //! through ownership form 0 (ref op ref), 1 (value op value), 2 (value op ref), 3 (ref op value),
 //! a per-instruction mix, and with the other operand KIND (trace op number <-> trace op
@@ -23,11 +24,23 @@ pub fn run(args: &[Sx]) -> Sx {
             let (Some(ty), Some(seed)) = (args[1].i64(), args[2].usize()) else { return bad_case() };
             with_ty!(ty, go(seed, &args[3], &args[4]))
         }
+        // float oracle: (5 2 seed body outputs), numbers (m e) = m * 2^e as f64; result: three 0/1
+        // flags (forms agree, forward == reverse, numbers == plain f64)
+        Some(2) if args.len() == 4 => {
+            let Some(seed) = args[1].usize() else { return bad_case() };
+            let Some(prog) = parse_prog_with::<f64>(&args[2], &dec_f64) else { return bad_case() };
+            let Some(outs) = parse_outs(&args[3], prog.len()) else { return bad_case() };
+            if !matches!(prog.get(seed), Some(Ins::Var(_))) {
+                return bad_case();
+            }
+            let (a, b, c) = float_oracle(&prog, &outs, &[seed]);
+            l(vec![boolean(a), boolean(b), boolean(c)])
+        }
         _ => bad_case(),
     }
 }
 
-fn go<T: Num>(seed: usize, body: &Sx, outs: &Sx) -> Sx
+fn go<T: Num + Enc>(seed: usize, body: &Sx, outs: &Sx) -> Sx
 where
     for<'t> &'t T: RealRef<T>,
 {
